@@ -68,6 +68,9 @@ P = {
  "C07": ("model_checking", "Gating.tla (watermark = longest quorum-confirmed prefix, visible set) checked by TLC over all small histories; every history built on a real Database under the real ClusterActor and queried with every argument tuple",
          "TLC enumerates all partition histories of up to 3-4 transactions with confirmation counts below/at/above the quorum for rf 1,2,3,5 and checks the gate's own properties; each history is built on disk, given to the real ClusterActor (ResetCluster: watermark derived from disk by the real ConfirmationActor) and ReadEvent, ReadPartition, ReadStream, GetStreamVersion, GetPartitionSequence are sent for every event / (start, end, count) / stream; no answer may reveal anything at or above the specification's watermark.",
          "Single-process cluster (node_count 1): forwarding between replicas not exercised; answers revealing fewer events than visible are counted, not judged.", "5/C07", "h-cluster"),
+ "C12": ("model_checking", "Replicator.tla (ordered buffer, drain, expiry, catch-up) model-checked by TLC; one behaviour per quiescent final state replayed on a real PartitionReplicatorActor with real ReplicateWrite asks, timers and catch-up",
+         "TLC explores every delivery order, duplication and conflict pattern of six replicated transactions (single/2-event, conflicting, inside a multi-event range) with buffer limits 1-3 and checks AppliedAtAssignedSeq, AtMostOnce, NoPendingBelowNext, RejectLeavesLogUnchanged, AllAnsweredAtRest; behaviours are replayed on a real PartitionReplicatorActor (real Database, ConfirmationActor, catch-up served by the real ClusterActor): the reply of every delivery and the replica's partition log are compared.",
+         "Replica database written by its replicator only; expiry and catch-up replayed as alternative configurations; an evicted write whose evicting insert then conflicts is dropped rather than answered BufferEvicted (modelled as the code does).", "5/C12", "h-cluster"),
 }
 
 NOT_YET = "not yet built in this session (planned: see DESIGN.md section 5); no claim is made"
